@@ -9,7 +9,7 @@ JUDGE = ("C01.",)
 PROGRAMS = ["forms"]
 RUNS = {"quick": 3000, "thorough": 150000}
 
-GEN_FNS = ("gen", "genloop", "genretry")
+GEN_FNS = ("gen", "genloop", "genretry", "genyf")
 
 
 def selectable(fnir):
